@@ -5,6 +5,7 @@ zero-shot tasks are estimated through runners that over-deliver, fail on schedul
 wrapped in the tracker (SimFS) or implement only the bare protocol; every task is
 attributable (distinct basis state), and the peer's request ledger is checked.
 """
+import copy
 import random
 
 import numpy as np
@@ -44,7 +45,7 @@ class World:
     ]
     PROBES_EXPECTED = ["mixed-kinds", "const-task", "const-sum-task", "empty-sum-task", "zero-shot-task", "measurable-task", "no-measurable",
                        "over-delivery", "peer-fault", "tracker-runner", "tagged-runner", "symbolic-runner", "exact-step", "bind-step",
-                       "empty-task-list", "disk-fault", "exact-zero-shot-task"]
+                       "empty-task-list", "disk-fault", "exact-zero-shot-task", "bind-shared-circuit", "duplicate-tasks"]
 
     def gen_plan(self, seed, tier):
         r = random.Random(seed)
@@ -85,6 +86,9 @@ class World:
                     if kind in ("const", "const-sum", "empty-sum") and r.random() < 0.3:
                         shots = 0
                     tasks.append({"kind": kind, "bits": bits, "op": spec, "shots": shots})
+                for _ in range(r.choice([0, 0, 1, 2])):
+                    if tasks:   # equal tasks at several positions (a dataclass: equal by value)
+                        tasks.insert(r.randrange(len(tasks) + 1), copy.deepcopy(r.choice(tasks)))
                 s = {"op": "estimate", "args": {"runner": r.randrange(8), "tasks": tasks}}
                 if r.random() < pf:
                     s["fault"] = r.choice([{"kind": "peer", "at": r.randrange(0, 4)},
@@ -99,7 +103,7 @@ class World:
                 s = {"op": "exact", "args": {"tasks": tasks}}
             else:
                 k = r.randint(1, 5)
-                s = {"op": "bind", "args": {"tasks": [{"q": r.randrange(n), "gate": r.choice(["RX", "RY", "RZ", "PHASE"]),
+                s = {"op": "bind", "args": {"share": r.random() < 0.4, "tasks": [{"q": r.randrange(n), "gate": r.choice(["RX", "RY", "RZ", "PHASE"]),
                                                        "sym": r.choice(["theta", "phi", "x"]), "expr": r.choice(["{s}", "2*{s}", "{s}+phi"]),
                                                        "val": r.uniform(-3, 3), "extra": r.random() < 0.3, "shots": r.choice([0, 5, None])}
                                                       for _ in range(k)]}}
@@ -191,6 +195,8 @@ class World:
                        "zero-shot": "zero-shot-task", "zero-shot-const": "zero-shot-task"}[t["kind"]])
         if not tasks:
             ctx.probe("empty-task-list")
+        if any(x == y for i, x in enumerate(a["tasks"]) for y in a["tasks"][:i]):
+            ctx.probe("duplicate-tasks")
         if len(set(kinds)) >= 2:
             ctx.probe("mixed-kinds")
             if "meas" in kinds:
@@ -316,10 +322,19 @@ class World:
         from orquestra.quantum.operators import PauliTerm
 
         tasks, maps = [], []
+        if a.get("share") and a["tasks"]:
+            # one parametrised circuit OBJECT shared by all tasks, scanned over values of the same symbol
+            t0 = a["tasks"][0]
+            a = {**a, "tasks": [{**t, "sym": t0["sym"], "expr": t0["expr"], "gate": t0["gate"], "q": t0["q"]} for t in a["tasks"]]}
+            ctx.probe("bind-shared-circuit")
+        shared = None
         for t in a["tasks"]:
             s = sympy.Symbol(t["sym"])
             e = sympy.sympify(t["expr"].format(s=t["sym"]), locals={t["sym"]: s, "phi": sympy.Symbol("phi")})
             circ = Circuit([builtin_gate_by_name(t["gate"])(e)(t["q"]), builtin_gate_by_name("X")(0)])
+            if a.get("share"):
+                shared = shared or circ
+                circ = shared
             tasks.append(EstimationTask(PauliTerm({t["q"]: "Z"}, 1.5), circ, t["shots"]))
             m = {s: t["val"]}
             if t["extra"]:
